@@ -13,8 +13,10 @@ from sv import cdf_c17c07 as cc
 
 PROPERTY = "C07"
 GEN = ["Cdf"]
-PROPS = ["ScoresVerif/Props/C07.lean", "ScoresVerif/Props/C07Refine.lean", "ScoresVerif/Props/C07Bridge.lean"]
-AUDIT_FILES = ["ScoresVerif/Lemmas/Bridge.lean", "ScoresVerif/Lemmas/C07Bridge.lean"]
+PROPS = ["ScoresVerif/Props/C07.lean", "ScoresVerif/Props/C07Refine.lean", "ScoresVerif/Props/C07Bridge.lean",
+         "ScoresVerif/Props/C07Cases.lean", "ScoresVerif/Props/C07BridgeTrapz.lean"]
+AUDIT_FILES = ["ScoresVerif/Lemmas/Bridge.lean", "ScoresVerif/Lemmas/C07Bridge.lean", "ScoresVerif/Lemmas/C07PipelineCases.lean",
+               "ScoresVerif/Lemmas/C07PipelineCasesW.lean", "ScoresVerif/Lemmas/C07BridgeTrapz.lean"]
 DRIVER_DEPS = ["ScoresVerif.Driver.C07"]
 LEVEL = "proof"
 TRUSTED = ["xarray interpolate_na / ffill / bfill / shift / integrate / sum(min_count) / broadcast are modelled by their documented "
